@@ -218,3 +218,188 @@ Proof. vm_compute. reflexivity. Qed.
 Example bad_state_stale :
   (db_get_at bad_state ka 14, visible (all_entries bad_state) 14 ka) = (Some [1; 2], Some [1; 7]).
 Proof. vm_compute. reflexivity. Qed.
+
+(** * The LRU cache behind the block cache and the table cache ([model/Cache.v]): a hit is never stale *)
+From Coq Require Import List NArith Permutation.
+From RainVerif.model Require Import Cache.
+From RainVerif.proofs Require Import CacheProofs.
+Import ListNotations.
+
+(** ** T1 invariant (any capacity, also 0) *)
+Theorem C01_cache_T1_invariant : forall cap ops,
+  let c := lru_exec (lru_new cap) ops in
+  lru_cap c = cap /\ NoDup (map fst (lru_entries c)) /\ (length (lru_entries c) <= cap)%nat.
+Proof. exact lru_invariant. Qed.
+Print Assumptions C01_cache_T1_invariant.
+
+Theorem C01_cache_T1_reachable_inv : forall cap ops, lru_inv cap (lru_exec (lru_new cap) ops).
+Proof. exact lru_reachable_inv. Qed.
+Print Assumptions C01_cache_T1_reachable_inv.
+
+Theorem C01_cache_T1_run_count_le_cap : forall cap ops x,
+  In x (lru_run (lru_new cap) ops) -> (snd x <= cap)%nat.
+Proof. exact lru_run_count_le_cap. Qed.
+Print Assumptions C01_cache_T1_run_count_le_cap.
+
+(** the answer of a get in a run is what the state before it holds *)
+Theorem C01_cache_run_get_observes_state : forall cap pre k rest d,
+  fst (nth (length pre) (lru_run (lru_new cap) (pre ++ CGet k :: rest)) d) =
+  lru_find k (lru_entries (lru_exec (lru_new cap) pre)).
+Proof. exact lru_run_get_observes_state. Qed.
+Print Assumptions C01_cache_run_get_observes_state.
+
+(** ** T2 a hit is never stale (any capacity) *)
+Theorem C01_cache_T2_submap_of_spec : forall cap ops k v,
+  lru_find k (lru_entries (lru_exec (lru_new cap) ops)) = Some v ->
+  lru_find k (spec_map ops []) = Some v.
+Proof. exact lru_submap_of_spec. Qed.
+Print Assumptions C01_cache_T2_submap_of_spec.
+
+Theorem C01_cache_T2_hit_not_stale : forall cap pre k rest v n d,
+  nth (length pre) (lru_run (lru_new cap) (pre ++ CGet k :: rest)) d = (Some v, n) ->
+  lru_find k (spec_map pre []) = Some v.
+Proof. exact lru_hit_not_stale. Qed.
+Print Assumptions C01_cache_T2_hit_not_stale.
+
+(** the unbounded map holds [v] at [k] iff the latest insert of [k] wrote [v] and no remove of [k] follows *)
+Theorem C01_cache_T2_spec_map_latest_insert : forall ops k v,
+  lru_find k (spec_map ops []) = Some v <->
+  exists p s, ops = p ++ CInsert k v :: s /\ Forall (nowrite k) s.
+Proof. exact spec_map_latest_insert. Qed.
+Print Assumptions C01_cache_T2_spec_map_latest_insert.
+
+Theorem C01_cache_T2_hit_latest_insert : forall cap pre k rest v n d,
+  nth (length pre) (lru_run (lru_new cap) (pre ++ CGet k :: rest)) d = (Some v, n) ->
+  exists p s, pre = p ++ CInsert k v :: s /\ Forall (nowrite k) s.
+Proof. exact lru_hit_latest_insert. Qed.
+Print Assumptions C01_cache_T2_hit_latest_insert.
+
+(** ** T3 what is kept (capacity >= 1) *)
+Theorem C01_cache_T3_insert_then_get : forall cap pre k v d, (1 <= cap)%nat ->
+  fst (last (lru_run (lru_new cap) ((pre ++ [CInsert k v]) ++ [CGet k])) d) = Some v.
+Proof. exact lru_insert_then_get_run. Qed.
+Print Assumptions C01_cache_T3_insert_then_get.
+
+Theorem C01_cache_T3_kept : forall cap pre k v others ks rest d,
+  (length ks < cap)%nat -> ~ In k ks -> Forall (fun o => In (cop_key o) ks) others ->
+  exists n,
+    nth (length (pre ++ CInsert k v :: others))
+        (lru_run (lru_new cap) ((pre ++ CInsert k v :: others) ++ CGet k :: rest)) d = (Some v, n).
+Proof. exact lru_kept. Qed.
+Print Assumptions C01_cache_T3_kept.
+
+Theorem C01_cache_T3_kept_distinct : forall cap pre k v others rest d,
+  (length (nodup N.eq_dec (map cop_key others)) < cap)%nat -> ~ In k (map cop_key others) ->
+  exists n,
+    nth (length (pre ++ CInsert k v :: others))
+        (lru_run (lru_new cap) ((pre ++ CInsert k v :: others) ++ CGet k :: rest)) d = (Some v, n).
+Proof. exact lru_kept_distinct. Qed.
+Print Assumptions C01_cache_T3_kept_distinct.
+
+(** gets of [k] itself, misses and removes of other keys do not count *)
+Theorem C01_cache_T3_kept_general : forall cap pre k v others ks,
+  (length ks < cap)%nat -> Forall (keeps k ks) others ->
+  lru_find k (lru_entries (lru_exec (lru_new cap) (pre ++ CInsert k v :: others))) = Some v.
+Proof. exact lru_kept_general. Qed.
+Print Assumptions C01_cache_T3_kept_general.
+
+(** ** T4 eviction order (states with the invariant, in particular all reachable ones) *)
+Theorem C01_cache_T4_insert_present_no_eviction : forall cap c k v w, lru_inv cap c ->
+  lru_find k (lru_entries c) = Some w ->
+  exists a b, lru_entries c = a ++ (k, w) :: b /\
+              lru_entries (lru_insert c k v) = (k, v) :: a ++ b.
+Proof. exact lru_insert_present. Qed.
+Print Assumptions C01_cache_T4_insert_present_no_eviction.
+
+Theorem C01_cache_T4_insert_room_no_eviction : forall cap c k v, lru_inv cap c ->
+  lru_find k (lru_entries c) = None -> (length (lru_entries c) < cap)%nat ->
+  lru_entries (lru_insert c k v) = (k, v) :: lru_entries c.
+Proof. exact lru_insert_room. Qed.
+Print Assumptions C01_cache_T4_insert_room_no_eviction.
+
+Theorem C01_cache_T4_insert_evicts_last : forall cap c k v, (1 <= cap)%nat -> lru_inv cap c ->
+  lru_find k (lru_entries c) = None -> length (lru_entries c) = cap ->
+  exists l0 e, lru_entries c = l0 ++ [e] /\
+               lru_entries (lru_insert c k v) = (k, v) :: l0 /\
+               lru_find (fst e) (lru_entries (lru_insert c k v)) = None /\
+               forall k', k' <> fst e ->
+                 lru_find k' (lru_entries (lru_insert c k v)) = lru_find k' ((k, v) :: lru_entries c).
+Proof. exact lru_insert_evicts_last. Qed.
+Print Assumptions C01_cache_T4_insert_evicts_last.
+
+Theorem C01_cache_T4_get_hit_moves_front : forall cap c k v, lru_inv cap c ->
+  lru_find k (lru_entries c) = Some v ->
+  snd (lru_get c k) = Some v /\
+  exists a b, lru_entries c = a ++ (k, v) :: b /\
+              lru_entries (fst (lru_get c k)) = (k, v) :: a ++ b.
+Proof. exact lru_get_hit_moves_front. Qed.
+Print Assumptions C01_cache_T4_get_hit_moves_front.
+
+Theorem C01_cache_T4_get_hit_same_entries : forall cap c k v, lru_inv cap c ->
+  lru_find k (lru_entries c) = Some v ->
+  Permutation (lru_entries (fst (lru_get c k))) (lru_entries c).
+Proof. exact lru_get_hit_same_entries. Qed.
+Print Assumptions C01_cache_T4_get_hit_same_entries.
+
+Theorem C01_cache_T4_get_miss_unchanged : forall c k, lru_find k (lru_entries c) = None ->
+  lru_get c k = (c, None).
+Proof. exact lru_get_miss_unchanged. Qed.
+Print Assumptions C01_cache_T4_get_miss_unchanged.
+
+(** ** T5 remove (any state, any capacity) *)
+Theorem C01_cache_T5_remove_then_get : forall cap pre k d,
+  fst (last (lru_run (lru_new cap) ((pre ++ [CRemove k]) ++ [CGet k])) d) = None.
+Proof. exact lru_remove_then_get_run. Qed.
+Print Assumptions C01_cache_T5_remove_then_get.
+
+Theorem C01_cache_T5_removed_stays_absent : forall cap pre k s rest d,
+  Forall (noinsert k) s ->
+  fst (nth (length (pre ++ CRemove k :: s))
+           (lru_run (lru_new cap) ((pre ++ CRemove k :: s) ++ CGet k :: rest)) d) = None.
+Proof. exact lru_removed_stays_absent. Qed.
+Print Assumptions C01_cache_T5_removed_stays_absent.
+
+Theorem C01_cache_T5_remove_absent : forall c k, lru_find k (lru_entries c) = None -> lru_remove c k = c.
+Proof. exact lru_remove_absent. Qed.
+Print Assumptions C01_cache_T5_remove_absent.
+
+Theorem C01_cache_T5_remove_others : forall c k k', k' <> k ->
+  lru_find k' (lru_entries (lru_remove c k)) = lru_find k' (lru_entries c).
+Proof. exact lru_remove_others. Qed.
+Print Assumptions C01_cache_T5_remove_others.
+
+(** ** T6 examples *)
+(** capacity 2: insert 1, insert 2, get 1, insert 3 evicts 2 (not 1) *)
+Example C01_cache_T6_evicts_lru_state :
+  lru_entries (lru_exec (lru_new 2) [CInsert 1 10; CInsert 2 20; CGet 1; CInsert 3 30]) = [(3, 30); (1, 10)].
+Proof. vm_compute. reflexivity. Qed.
+
+Example C01_cache_T6_evicts_lru_run :
+  lru_run (lru_new 2) [CInsert 1 10; CInsert 2 20; CGet 1; CInsert 3 30; CGet 2; CGet 1; CGet 3] =
+  [(Some 10, 1%nat); (Some 20, 2%nat); (Some 10, 2%nat); (Some 30, 2%nat);
+   (None, 2%nat); (Some 10, 2%nat); (Some 30, 2%nat)].
+Proof. vm_compute. reflexivity. Qed.
+
+(** without the get, 1 is the one evicted *)
+Example C01_cache_T6_no_get_evicts_oldest :
+  lru_run (lru_new 2) [CInsert 1 10; CInsert 2 20; CInsert 3 30; CGet 1; CGet 2] =
+  [(Some 10, 1%nat); (Some 20, 2%nat); (Some 30, 2%nat); (None, 2%nat); (Some 20, 2%nat)].
+Proof. vm_compute. reflexivity. Qed.
+
+(** re-inserting a present key at capacity replaces the value and evicts nothing *)
+Example C01_cache_T6_reinsert_no_eviction :
+  lru_run (lru_new 2) [CInsert 1 10; CInsert 2 20; CInsert 1 11; CGet 2; CGet 1] =
+  [(Some 10, 1%nat); (Some 20, 2%nat); (Some 11, 2%nat); (Some 20, 2%nat); (Some 11, 2%nat)].
+Proof. vm_compute. reflexivity. Qed.
+
+(** capacity 1 keeps the latest entry *)
+Example C01_cache_T6_cap1 :
+  lru_run (lru_new 1) [CInsert 1 10; CGet 1; CInsert 2 20; CGet 1; CGet 2] =
+  [(Some 10, 1%nat); (Some 10, 1%nat); (Some 20, 1%nat); (None, 1%nat); (Some 20, 1%nat)].
+Proof. vm_compute. reflexivity. Qed.
+
+(** T3 needs capacity >= 1: with capacity 0 (excluded by the code's assertion) the inserted entry
+    is evicted at once *)
+Example C01_cache_T3_cap0_refuted :
+  lru_run (lru_new 0) [CInsert 1 10; CGet 1] = [(Some 10, 0%nat); (None, 0%nat)].
+Proof. vm_compute. reflexivity. Qed.
